@@ -95,11 +95,15 @@ CHECKS["C08"]["text"] += " Added: reversed-corner ranges, shared-formula groups 
 CHECKS["C13"]["text"] += " Added: two overlapping path saves to different destinations with the same stem (save A suspended at the package writer's hook points after it created its temporary file, save B run to completion there), both judged by the same oracle."
 CHECKS["C09"]["text"] += " Added: the translate clause on shared-formula children as the reader leaves them (masters of the whole quick grammar, children read back from a saved file)."
 CHECKS["C02"]["text"] += " Added: every corpus file opened lazily, first or last sheet materialised and edited, decoded package compared with an eagerly loaded twin."
+CHECKS["C11"]["text"] += " Added operation: fork (a clone of the lazily opened workbook is fully loaded, saved and dropped; clones share the loaded string table, the original must not notice)."
+CHECKS["C19"]["text"] += " Added: every text also as the cached result of a formula and as the reader leaves it."
 CHECKS["C20"]["text"] += " Added: every presence pattern with one more cell that was written and removed again (the highest used row/column is that of what is left)."
 CHECKS["C07"]["text"] += " Added seeded states: the dense and the annotated sheet as the reader leaves them (saved and loaded)."
 CHECKS["C16"]["text"] += " Added configurations: lazily opened workbooks that are never touched before the savers start."
 CHECKS["C17"]["text"] += " Added space: every ordered pair of texts parsed into the SAME Coordinate / Range / Address object (fresh-object twin)."
 CHECKS["C17"]["text"] += " Added clause: Worksheet::set_style_by_range as a public consumer of whole-row / whole-column range corners."
+for _c in ("C17","C18","C19","C20"):
+    CHECKS[_c]["text"] += " SUPPLEMENTARY (never part of the exhaustive claim): spaces named <id>~par run 4 consecutive cases at the same time on free-running threads - sampled interleavings, absolute oracles, so a report is a real wrong result while a clean pass proves nothing; it exists because a lock or cache introduced by a change carries no hook point for the cooperative scheduler."
 for _c in ("C14","C15","C17","C18","C19","C20"):
     CHECKS[_c]["text"] += " Every case space is also run in DESCENDING case order (spaces named <id>~rev; quick tier of C18/C19: all but the largest space), so that library code with process-wide state (caches, memo tables, statics) meets every case after a different predecessor."
 ENGINES=[
